@@ -143,7 +143,7 @@ def check_flavour_tables(ctx, rule="C01.U"):
               fc.loc(init))
     # every flavour instance owns its tables: they are updated in place with the flavour-specific classes
     for table in ("id_map", "name_map"):
-        assigns = [n for n in A.body_nodes(init) if isinstance(n, ast.Assign) and len(n.targets) == 1 and A.is_self_attr(n.targets[0], table)]
+        assigns = [n for t_, v_, n in A.plain_assigns(init) if A.is_self_attr(t_, table)]
         mutated = any(isinstance(c, ast.Call) and isinstance(c.func, ast.Attribute) and c.func.attr in ("update", "setdefault", "pop", "clear") and A.is_self_attr(c.func.value, table) for c in A.calls_in(init)) or \
             any(isinstance(n, ast.Assign) and isinstance(n.targets[0], ast.Subscript) and A.is_self_attr(n.targets[0].value, table) for n in A.body_nodes(init))
         fresh = bool(assigns) and all(isinstance(a.value, (ast.Dict, ast.DictComp)) or (isinstance(a.value, ast.Call) and (dotted(a.value.func) in ("dict", "OrderedDict") or (isinstance(a.value.func, ast.Attribute) and a.value.func.attr in ("copy",)) or dotted(a.value.func) in ("copy.copy", "copy.deepcopy"))) for a in assigns)
